@@ -313,6 +313,515 @@ def remap_marked(x, lmap, bmap):
     return out
 
 
+# --------------------------------------------------------------------------- adaptor desugaring
+OPT, RES = "std::option::Option", "std::result::Result"
+VIDX = {"None": 0, "Some": 1, "Ok": 0, "Err": 1, "Continue": 0, "Break": 1}
+
+ADAPTORS = {
+    "std::iter::Iterator::for_each": "for_each",
+    "std::iter::Iterator::fold": "fold",
+    "std::iter::Iterator::try_fold": "try_fold",
+    "std::iter::Iterator::sum": "sum",
+    "std::iter::Iterator::collect": "collect",
+    "std::option::Option::<T>::map": "opt_map",
+    "std::option::Option::<T>::and_then": "opt_and_then",
+    "std::option::Option::<T>::map_or": "opt_map_or",
+    "std::option::Option::<T>::map_or_else": "opt_map_or_else",
+    "std::option::Option::<T>::unwrap_or_else": "opt_unwrap_or_else",
+    "std::option::Option::<T>::unwrap_or": "opt_unwrap_or",
+    "std::option::Option::<T>::ok_or": "opt_ok_or",
+    "std::option::Option::<T>::ok_or_else": "opt_ok_or_else",
+    "std::result::Result::<T, E>::map": "res_map",
+    "std::result::Result::<T, E>::and_then": "res_and_then",
+    "std::result::Result::<T, E>::unwrap_or_else": "res_unwrap_or_else",
+}
+ITER_MAP = "std::iter::Iterator::map"
+
+
+def _mv(l):
+    return {"m": {"l": l, "p": []}}
+
+
+def _cp(l):
+    return {"c": {"l": l, "p": []}}
+
+
+def _payload(l, variant, field="0"):
+    return {"m": {"l": l, "p": [{"d": VIDX[variant], "n": variant}, {"f": int(field), "n": field}]}}
+
+
+def _agg(enum, variant, ops):
+    return {"k": "agg", "kind": "adt", "name": enum, "variant": variant, "variant_idx": VIDX[variant], "fields": [str(i) for i in range(len(ops))], "ops": ops}
+
+
+UNIT = {"k": {"ty": "()", "repr": "()"}}
+
+
+class Desugar:
+    """Rewrites calls of the std iterator / Option / Result adaptors that take a closure defined in
+    the same function into the explicit control flow they stand for, with the closure body
+    spliced in (models of the std functions; listed in ADAPTORS).  `for x in it { f(x) }` and
+    `it.for_each(|x| f(x))`, `match o { Some(x) => Some(g(x)), None => None }` and `o.map(g)`
+    then present the same CFG, guards and origin terms to the rules.  A closure all of whose
+    construction sites were consumed this way is no longer analysed as a stand-alone body."""
+
+    def __init__(self, j):
+        self.j = j
+        self.by_name = {}
+        for b in j["bodies"]:
+            self.by_name.setdefault(b["name"], b)
+        self.log = []
+        self.consumed = {}     # closure name -> number of construction sites consumed
+
+    # ------------------------------------------------------------------ small builders
+    def new_local(self, body, ty, name=None):
+        i = len(body["locals"])
+        body["locals"].append({"i": i, "ty": ty, "name": name, "user": False, "synth": True})
+        return i
+
+    def new_block(self, body, stmts, term, chain=()):
+        i = len(body["blocks"])
+        body["blocks"].append({"i": i, "cleanup": False, "stmts": stmts, "term": term, "synth": True, "inl": tuple(chain)})
+        return i
+
+    def st(self, place_l, rv, span):
+        return {"k": "assign", "place": {"l": place_l, "p": []}, "rv": rv, "span": span}
+
+    def use(self, place_l, operand, span):
+        return self.st(place_l, {"k": "use", "op": operand}, span)
+
+    def goto(self, target, span):
+        return {"k": "goto", "target": target, "span": span}
+
+    def unreachable(self, body, span):
+        return self.new_block(body, [], {"k": "unreachable", "span": span})
+
+    def switch2(self, body, local, b0, b1, span, pre=()):
+        """block: d = discriminant(local); switch d [0: b0, 1: b1]"""
+        d = self.new_local(body, "isize")
+        u = self.unreachable(body, span)
+        return list(pre) + [self.st(d, {"k": "disc", "place": {"l": local, "p": []}}, span)], \
+            {"k": "switch", "discr": _mv(d), "discr_ty": "isize", "targets": [[0, b0], [1, b1]], "otherwise": u, "span": span}
+
+    # ------------------------------------------------------------------ callables
+    def callable_of(self, body, operand):
+        """('closure', name, captured operands, defining (block, stmt index)) | ('fn', name) | None"""
+        if "k" in operand and "fn" in operand["k"]:
+            return ("fn", operand["k"]["fn"])
+        l = _plain(operand)
+        for _ in range(5):
+            if l is None:
+                return None
+            defs = []
+            for blk in body["blocks"]:
+                if blk["cleanup"]:
+                    continue
+                for si, st in enumerate(blk["stmts"]):
+                    if st["k"] == "assign" and st["place"]["l"] == l and not st["place"]["p"]:
+                        defs.append((blk, si, st))
+                t = blk["term"]
+                if t["k"] == "call" and t["dest"]["l"] == l:
+                    return None
+            if len(defs) != 1:
+                return None
+            blk, si, st = defs[0]
+            rv = st["rv"]
+            if rv["k"] == "agg" and rv["kind"] == "closure":
+                cb = self.by_name.get(rv["name"])
+                if cb is None or cb.get("is_coroutine") or len(cb["blocks"]) > MAX_CALLEE_BLOCKS:
+                    return None
+                return ("closure", rv["name"], rv["ops"], (blk["i"], si))
+            if rv["k"] == "use":
+                l = _plain(rv["op"])
+                continue
+            return None
+        return None
+
+    def emit_callable(self, body, call, args, result_local, nxt, span, chain):
+        """blocks that evaluate call(args) into result_local and continue at nxt; returns entry"""
+        if call[0] == "fn":
+            name = call[1]
+            t = {"k": "call", "callee": name, "callee_full": name, "callee_local": name in self.by_name, "gargs": [], "resolved": name,
+                 "resolved_local": name in self.by_name, "resolved_kind": "synthetic", "args": list(args), "arg_tys": ["?"] * len(args),
+                 "dest": {"l": result_local, "p": []}, "dest_ty": "?", "target": nxt, "fn_span": span, "span": span, "synth": True}
+            return self.new_block(body, [], t, chain)
+        _, name, captured, _site = call
+        cb = self.by_name[name]
+        self.consumed[name] = self.consumed.get(name, 0) + 1
+        # upvars: one caller local per captured operand
+        upmap = {}
+        pre = []
+        for k, op in enumerate(captured):
+            u = self.new_local(body, "?upvar")
+            upmap[k] = u
+            pre.append(self.use(u, copy.deepcopy(op), span))
+        n_loc = len(body["locals"])
+        n_blk = len(body["blocks"]) + 1      # +1: the parameter block created below comes first
+        cb2 = {"blocks": [subst_closure_upvars(b, upmap) for b in cb["blocks"]]}
+
+        def lmap(l):
+            return n_loc + l
+
+        def bmap(b):
+            return n_blk + b
+
+        for loc in cb["locals"]:
+            nl = dict(loc)
+            nl["i"] = n_loc + loc["i"]
+            nl["inl"] = name
+            body["locals"].append(nl)
+        if len(args) != cb["arg_count"] - 1:
+            raise _Skip("closure arity")
+        for k, a in enumerate(args):
+            pre.append(self.use(lmap(2 + k), a, span))
+        entry = self.new_block(body, pre, self.goto(n_blk, span), chain)
+        assert entry == n_blk - 1
+        cchain = tuple(chain) + (name,)
+        for blk in cb2["blocks"]:
+            nb = remap_marked({"stmts": blk["stmts"], "term": blk["term"]}, lmap, bmap)
+            nb["i"] = n_blk + blk["i"]
+            nb["cleanup"] = blk["cleanup"]
+            nb["inl"] = cchain
+            if nb["term"]["k"] == "return" and not blk["cleanup"]:
+                nb["stmts"].append(self.use(result_local, _mv(lmap(0)), nb["term"]["span"]))
+                nb["term"] = self.goto(nxt, nb["term"]["span"])
+            body["blocks"].append(nb)
+        return entry
+
+    # ------------------------------------------------------------------ driver
+    def run(self):
+        for body in sorted(self.j["bodies"], key=lambda b: -len(b["name"])):
+            guard = 0
+            while guard < 60 and self.step(body):
+                guard += 1
+        # closures whose every construction site was consumed
+        built = {}
+        for body in self.j["bodies"]:
+            for blk in body["blocks"]:
+                for st in blk["stmts"]:
+                    if st["k"] == "assign" and st["rv"]["k"] == "agg" and st["rv"]["kind"] == "closure" and not st.get("consumed"):
+                        built[st["rv"]["name"]] = built.get(st["rv"]["name"], 0) + 1
+        gone = set(n for n in self.consumed if built.get(n, 0) == 0)
+        if gone:
+            self.j["bodies"] = [b for b in self.j["bodies"] if b["name"] not in gone]
+        self.absorbed = sorted(gone)
+        return self
+
+    def step(self, body):
+        for blk in body["blocks"]:
+            t = blk["term"]
+            if blk["cleanup"] or t["k"] != "call" or blk.get("no_desugar") or t.get("target") is None or t["dest"]["p"]:
+                continue
+            kind = ADAPTORS.get(t.get("callee"))
+            if kind is None:
+                continue
+            n_loc, n_blk = len(body["locals"]), len(body["blocks"])
+            saved = (copy.deepcopy(blk["stmts"]), blk["term"], dict(self.consumed))
+            marks = []
+            try:
+                getattr(self, "d_" + kind)(body, blk, t, marks)
+            except _Skip as e:
+                del body["locals"][n_loc:]
+                del body["blocks"][n_blk:]
+                blk["stmts"], blk["term"] = saved[0], saved[1]
+                self.consumed = saved[2]
+                blk["no_desugar"] = True
+                continue
+            for (bi, si) in marks:
+                body["blocks"][bi]["stmts"][si]["consumed"] = True
+            self.log.append((body["name"], t.get("callee"), blk["i"]))
+            return True
+        return False
+
+    def need_callable(self, body, op, marks):
+        c = self.callable_of(body, op)
+        if c is None:
+            raise _Skip("callable not resolvable")
+        if c[0] == "closure":
+            marks.append(c[3])
+        return c
+
+    # ------------------------------------------------------------------ Option / Result
+    def _two_way(self, body, blk, t, enum, on0, on1):
+        """b: X = arg0; switch disc(X) [0: on0(X), 1: on1(X)]; both continue at the call's target
+        after assigning the destination.  on*(X, done) -> entry block; done(rv) builds the block
+        that assigns dest and jumps to the target."""
+        span = t["span"]
+        chain = blk.get("inl", ())
+        dest, target = t["dest"]["l"], t["target"]
+        X = self.new_local(body, t["arg_tys"][0] if t.get("arg_tys") else "?")
+
+        def done(rv):
+            return self.new_block(body, [self.st(dest, rv, span)], self.goto(target, span), chain)
+
+        b0 = on0(X, done)
+        b1 = on1(X, done)
+        stmts, term = self.switch2(body, X, b0, b1, span, pre=[self.use(X, t["args"][0], span)])
+        blk["stmts"].extend(stmts)
+        blk["term"] = dict(term, desugared=t.get("callee"))
+
+    def _call_then(self, body, blk, t, call, args, wrap):
+        """evaluate call(args) into R, then dest = wrap(R)"""
+        span = t["span"]
+        chain = blk.get("inl", ())
+        R = self.new_local(body, "?")
+        fin = self.new_block(body, [self.st(t["dest"]["l"], wrap(R), span)], self.goto(t["target"], span), chain)
+        return self.emit_callable(body, call, args, R, fin, span, chain)
+
+    def d_opt_map(self, body, blk, t, marks):
+        f = self.need_callable(body, t["args"][1], marks)
+        self._two_way(body, blk, t, OPT,
+                      lambda X, done: done(_agg(OPT, "None", [])),
+                      lambda X, done: self._call_then(body, blk, t, f, [_payload(X, "Some")], lambda R: _agg(OPT, "Some", [_mv(R)])))
+
+    def d_opt_and_then(self, body, blk, t, marks):
+        f = self.need_callable(body, t["args"][1], marks)
+        self._two_way(body, blk, t, OPT,
+                      lambda X, done: done(_agg(OPT, "None", [])),
+                      lambda X, done: self._call_then(body, blk, t, f, [_payload(X, "Some")], lambda R: {"k": "use", "op": _mv(R)}))
+
+    def d_opt_map_or(self, body, blk, t, marks):
+        f = self.need_callable(body, t["args"][2], marks)
+        self._two_way(body, blk, t, OPT,
+                      lambda X, done: done({"k": "use", "op": t["args"][1]}),
+                      lambda X, done: self._call_then(body, blk, t, f, [_payload(X, "Some")], lambda R: {"k": "use", "op": _mv(R)}))
+
+    def d_opt_map_or_else(self, body, blk, t, marks):
+        d = self.need_callable(body, t["args"][1], marks)
+        f = self.need_callable(body, t["args"][2], marks)
+        self._two_way(body, blk, t, OPT,
+                      lambda X, done: self._call_then(body, blk, t, d, [], lambda R: {"k": "use", "op": _mv(R)}),
+                      lambda X, done: self._call_then(body, blk, t, f, [_payload(X, "Some")], lambda R: {"k": "use", "op": _mv(R)}))
+
+    def d_opt_unwrap_or_else(self, body, blk, t, marks):
+        d = self.need_callable(body, t["args"][1], marks)
+        self._two_way(body, blk, t, OPT,
+                      lambda X, done: self._call_then(body, blk, t, d, [], lambda R: {"k": "use", "op": _mv(R)}),
+                      lambda X, done: done({"k": "use", "op": _payload(X, "Some")}))
+
+    def d_opt_unwrap_or(self, body, blk, t, marks):
+        self._two_way(body, blk, t, OPT,
+                      lambda X, done: done({"k": "use", "op": t["args"][1]}),
+                      lambda X, done: done({"k": "use", "op": _payload(X, "Some")}))
+
+    def d_opt_ok_or(self, body, blk, t, marks):
+        self._two_way(body, blk, t, OPT,
+                      lambda X, done: done(_agg(RES, "Err", [t["args"][1]])),
+                      lambda X, done: done(_agg(RES, "Ok", [_payload(X, "Some")])))
+
+    def d_opt_ok_or_else(self, body, blk, t, marks):
+        e = self.need_callable(body, t["args"][1], marks)
+        self._two_way(body, blk, t, OPT,
+                      lambda X, done: self._call_then(body, blk, t, e, [], lambda R: _agg(RES, "Err", [_mv(R)])),
+                      lambda X, done: done(_agg(RES, "Ok", [_payload(X, "Some")])))
+
+    def d_res_map(self, body, blk, t, marks):
+        f = self.need_callable(body, t["args"][1], marks)
+        self._two_way(body, blk, t, RES,
+                      lambda X, done: self._call_then(body, blk, t, f, [_payload(X, "Ok")], lambda R: _agg(RES, "Ok", [_mv(R)])),
+                      lambda X, done: done(_agg(RES, "Err", [_payload(X, "Err")])))
+
+    def d_res_and_then(self, body, blk, t, marks):
+        f = self.need_callable(body, t["args"][1], marks)
+        self._two_way(body, blk, t, RES,
+                      lambda X, done: self._call_then(body, blk, t, f, [_payload(X, "Ok")], lambda R: {"k": "use", "op": _mv(R)}),
+                      lambda X, done: done(_agg(RES, "Err", [_payload(X, "Err")])))
+
+    def d_res_unwrap_or_else(self, body, blk, t, marks):
+        f = self.need_callable(body, t["args"][1], marks)
+        self._two_way(body, blk, t, RES,
+                      lambda X, done: done({"k": "use", "op": _payload(X, "Ok")}),
+                      lambda X, done: self._call_then(body, blk, t, f, [_payload(X, "Err")], lambda R: {"k": "use", "op": _mv(R)}))
+
+    # ------------------------------------------------------------------ iterators
+    def iter_source(self, body, operand, marks):
+        """(source operand, [map stages innermost first], [blocks of the map calls])"""
+        stages, calls = [], []
+        op = operand
+        for _ in range(4):
+            l = _plain(op)
+            if l is None:
+                break
+            prod = None
+            moved = None
+            n = 0
+            for blk in body["blocks"]:
+                if blk["cleanup"]:
+                    continue
+                for st in blk["stmts"]:
+                    if st["k"] == "assign" and st["place"]["l"] == l and not st["place"]["p"]:
+                        n += 1
+                        if st["rv"]["k"] == "use":
+                            moved = st["rv"]["op"]
+                t = blk["term"]
+                if t["k"] == "call" and t["dest"]["l"] == l and not t["dest"]["p"]:
+                    n += 1
+                    prod = blk
+            if n != 1:
+                break
+            if moved is not None:
+                op = moved
+                continue
+            if prod is not None and prod["term"].get("callee") == ITER_MAP and not prod.get("synth_dead"):
+                g = self.callable_of(body, prod["term"]["args"][1])
+                if g is None:
+                    break
+                if g[0] == "closure":
+                    marks.append(g[3])
+                stages.insert(0, g)
+                calls.append(prod)
+                op = prod["term"]["args"][0]
+                continue
+            break
+        return op, stages, calls
+
+    def _loop(self, body, blk, t, marks, it_operand, per_item, on_exit, init=()):
+        """b: IT = source; init; goto H.  H: NX = next(&mut IT); switch: None -> on_exit(), Some ->
+        item through the map stages -> per_item(item local, back-to-H block) """
+        span = t["span"]
+        chain = blk.get("inl", ())
+        src, stages, mapcalls = self.iter_source(body, it_operand, marks)
+        IT = self.new_local(body, "?iter")
+        NX = self.new_local(body, "std::option::Option<?>")
+        R = self.new_local(body, "&mut ?iter")
+        H = self.new_block(body, [self.st(R, {"k": "ref", "mut": True, "fake": False, "place": {"l": IT, "p": []}}, span)], None, chain)
+        exit_b = on_exit()
+        item = self.new_local(body, "?item")
+        cont = per_item(item, H)
+        # stages: item_k+1 = g_k(item_k)
+        entry = cont
+        cur_out = item
+        for g in reversed(stages):
+            cur_in = self.new_local(body, "?item")
+            entry = self.emit_callable(body, g, [_mv(cur_in)], cur_out, entry, span, chain)
+            cur_out = cur_in
+        B = self.new_block(body, [self.use(cur_out, _payload(NX, "Some"), span)], self.goto(entry, span), chain)
+        stmts, term = self.switch2(body, NX, exit_b, B, span)
+        T = self.new_block(body, stmts, term, chain)
+        body["blocks"][H]["term"] = {"k": "call", "callee": "std::iter::Iterator::next", "callee_full": "<?iter as std::iter::Iterator>::next", "callee_local": False, "gargs": [],
+                                     "resolved": "std::iter::Iterator::next", "resolved_local": False, "resolved_kind": "synthetic", "args": [_mv(R)], "arg_tys": ["&mut ?iter"],
+                                     "dest": {"l": NX, "p": []}, "dest_ty": "std::option::Option<?>", "target": T, "fn_span": span, "span": span, "synth": True}
+        blk["stmts"].append(self.use(IT, copy.deepcopy(src), span))
+        blk["stmts"].extend(init)
+        blk["term"] = dict(self.goto(H, span), desugared=t.get("callee"))
+        for mc in mapcalls:
+            mc["term"] = dict(self.goto(mc["term"]["target"], mc["term"]["span"]), desugared=ITER_MAP)
+            mc["synth_dead"] = True
+
+    def d_for_each(self, body, blk, t, marks):
+        f = self.need_callable(body, t["args"][1], marks)
+        span, chain = t["span"], blk.get("inl", ())
+        dest, target = t["dest"]["l"], t["target"]
+        ign = self.new_local(body, "()")
+        self._loop(body, blk, t, marks, t["args"][0],
+                   lambda item, H: self.emit_callable(body, f, [_mv(item)], ign, H, span, chain),
+                   lambda: self.new_block(body, [self.use(dest, UNIT, span)], self.goto(target, span), chain))
+
+    def d_fold(self, body, blk, t, marks):
+        f = self.need_callable(body, t["args"][2], marks)
+        span, chain = t["span"], blk.get("inl", ())
+        dest, target = t["dest"]["l"], t["target"]
+        ACC = self.new_local(body, t.get("dest_ty", "?"))
+        self._loop(body, blk, t, marks, t["args"][0],
+                   lambda item, H: self.emit_callable(body, f, [_mv(ACC), _mv(item)], ACC, H, span, chain),
+                   lambda: self.new_block(body, [self.use(dest, _mv(ACC), span)], self.goto(target, span), chain),
+                   init=[self.use(ACC, t["args"][1], span)])
+
+    def d_sum(self, body, blk, t, marks):
+        span, chain = t["span"], blk.get("inl", ())
+        dest, target = t["dest"]["l"], t["target"]
+        ty = t.get("dest_ty", "?")
+        if ty not in ("u64", "usize", "u32", "u8", "u16", "i64", "i32", "isize"):
+            raise _Skip("sum of a non-integer")
+        src, stages, _ = self.iter_source(body, t["args"][0], [])
+        if not stages:
+            raise _Skip("sum without a map stage: nothing to splice")
+        ACC = self.new_local(body, ty)
+        self._loop(body, blk, t, marks, t["args"][0],
+                   lambda item, H: self.new_block(body, [self.st(ACC, {"k": "bin", "op": "Add", "l": _cp(ACC), "r": _mv(item)}, span)], self.goto(H, span), chain),
+                   lambda: self.new_block(body, [self.use(dest, _mv(ACC), span)], self.goto(target, span), chain),
+                   init=[self.use(ACC, {"k": {"v": 0, "ty": ty}}, span)])
+
+    def d_collect(self, body, blk, t, marks):
+        span, chain = t["span"], blk.get("inl", ())
+        dest, target = t["dest"]["l"], t["target"]
+        ty = t.get("dest_ty", "?")
+        if not ty.startswith("std::vec::Vec<"):
+            raise _Skip("collect into something other than a Vec")
+        src, stages, _ = self.iter_source(body, t["args"][0], [])
+        if not stages:
+            raise _Skip("collect without a map stage: nothing to splice")
+        OUT = self.new_local(body, ty)
+        ign = self.new_local(body, "()")
+
+        def push(item, H):
+            r = self.new_local(body, "&mut " + ty)
+            return self.new_block(body, [self.st(r, {"k": "ref", "mut": True, "fake": False, "place": {"l": OUT, "p": []}}, span)],
+                                  {"k": "call", "callee": "std::vec::Vec::<T, A>::push", "callee_full": "std::vec::Vec::<?>::push", "callee_local": False, "gargs": [], "resolved": "std::vec::Vec::<T, A>::push",
+                                   "resolved_local": False, "resolved_kind": "synthetic", "args": [_mv(r), _mv(item)], "arg_tys": ["&mut " + ty, "?"], "dest": {"l": ign, "p": []}, "dest_ty": "()",
+                                   "target": H, "fn_span": span, "span": span, "synth": True}, chain)
+        newv = {"k": "call", "callee": "std::vec::Vec::<T>::new", "callee_full": "std::vec::Vec::<?>::new", "callee_local": False, "gargs": [], "resolved": "std::vec::Vec::<T>::new",
+                "resolved_local": False, "resolved_kind": "synthetic", "args": [], "arg_tys": [], "dest": {"l": OUT, "p": []}, "dest_ty": ty, "target": None, "fn_span": span, "span": span, "synth": True}
+        # b -> [OUT = Vec::new()] -> loop
+        self._loop(body, blk, t, marks, t["args"][0], push,
+                   lambda: self.new_block(body, [self.use(dest, _mv(OUT), span)], self.goto(target, span), chain))
+        loop_entry = blk["term"]["target"]
+        nb = self.new_block(body, [], dict(newv, target=loop_entry), chain)
+        blk["term"] = dict(blk["term"], target=nb)
+
+    def d_try_fold(self, body, blk, t, marks):
+        f = self.need_callable(body, t["args"][2], marks)
+        span, chain = t["span"], blk.get("inl", ())
+        dest, target = t["dest"]["l"], t["target"]
+        ty = t.get("dest_ty", "?")
+        if not ty.startswith("std::result::Result<"):
+            raise _Skip("try_fold over a non-Result")
+        ACC = self.new_local(body, "?acc")
+        RR = self.new_local(body, ty)
+        BR = self.new_local(body, "std::ops::ControlFlow<?, ?>")
+        RES_ = self.new_local(body, "?residual")
+
+        def per_item(item, H):
+            bc = self.new_block(body, [self.use(ACC, _payload(BR, "Continue"), span)], self.goto(H, span), chain)
+            bb = self.new_block(body, [self.use(RES_, _payload(BR, "Break"), span)],
+                                {"k": "call", "callee": "std::ops::FromResidual::from_residual", "callee_full": "<%s as std::ops::FromResidual>::from_residual" % ty, "callee_local": False, "gargs": [],
+                                 "resolved": "std::ops::FromResidual::from_residual", "resolved_local": False, "resolved_kind": "synthetic", "args": [_mv(RES_)], "arg_tys": ["?"],
+                                 "dest": {"l": dest, "p": []}, "dest_ty": ty, "target": target, "fn_span": span, "span": span, "synth": True}, chain)
+            stmts, term = self.switch2(body, BR, bc, bb, span)
+            sw = self.new_block(body, stmts, term, chain)
+            br = self.new_block(body, [], {"k": "call", "callee": "std::ops::Try::branch", "callee_full": "<%s as std::ops::Try>::branch" % ty, "callee_local": False, "gargs": [],
+                                           "resolved": "std::ops::Try::branch", "resolved_local": False, "resolved_kind": "synthetic", "args": [_mv(RR)], "arg_tys": [ty],
+                                           "dest": {"l": BR, "p": []}, "dest_ty": "std::ops::ControlFlow<?, ?>", "target": sw, "fn_span": span, "span": span, "synth": True}, chain)
+            return self.emit_callable(body, f, [_mv(ACC), _mv(item)], RR, br, span, chain)
+
+        self._loop(body, blk, t, marks, t["args"][0], per_item,
+                   lambda: self.new_block(body, [self.st(dest, _agg(RES, "Ok", [_mv(ACC)]), span)], self.goto(target, span), chain),
+                   init=[self.use(ACC, t["args"][1], span)])
+
+
+class _Skip(Exception):
+    pass
+
+
+def subst_closure_upvars(x, upmap):
+    """replace a closure body's captured-variable places (`(*_1).k` / `_1.k`) by the caller
+    local holding capture k (marked absolute for remap_marked)"""
+    if isinstance(x, list):
+        return [subst_closure_upvars(e, upmap) for e in x]
+    if not isinstance(x, dict):
+        return x
+    if isinstance(x.get("l"), int) and "p" in x and len(x) == 2:
+        p = x["p"]
+        if x["l"] == 1:
+            k = 0
+            if p and p[0] == "*":
+                k = 1
+            if len(p) > k and isinstance(p[k], dict) and "f" in p[k] and p[k]["f"] in upmap:
+                return {"l": {"abs": upmap[p[k]["f"]]}, "p": subst_closure_upvars(p[k + 1:], upmap)}
+        return {"l": x["l"], "p": subst_closure_upvars(p, upmap)}
+    return {k: (v if k in ("span", "fn_span") else subst_closure_upvars(v, upmap)) for k, v in x.items()}
+
+
 # --------------------------------------------------------------------------- jump threading
 def _const_bool_assign(st, l):
     if st["k"] != "assign" or st["place"]["l"] != l or st["place"]["p"]:
@@ -662,6 +1171,7 @@ def normalize(j, known=None):
     """mutates the loaded fact dict; returns a summary for the evidence"""
     known = load_known() if known is None else known
     inl = Inliner(j, known).run()
+    des = Desugar(j).run()
     threaded = 0
     vthreaded = 0
     for b in j["bodies"]:
@@ -671,6 +1181,8 @@ def normalize(j, known=None):
         "inlined": [{"caller": a, "callee": b, "kind": k} for a, b, k in inl.log],
         "absorbed": inl.absorbed,
         "refused": [{"caller": a, "callee": b, "reason": r} for a, b, r in inl.refused],
+        "adaptors_desugared": len(des.log),
+        "closures_absorbed": des.absorbed,
         "threaded_edges": threaded,
         "threaded_variant_edges": vthreaded,
     }
